@@ -217,7 +217,7 @@ static int cmd_explore(int argc, char** argv) {
             if (!same) nondeterministic++;
             for (auto& v : r.viols) {
                 counters["violations_seen"]++;
-                if (!seen_sigs.insert(v.signature()).second) continue;
+                if (!seen_sigs.insert(v.signature() + v.context.str()).second) continue;
                 J vj = viol_json(v);
                 vj.set("index", (int64_t)idx);
                 vj.set("repeatable_in_process", same);
